@@ -91,15 +91,30 @@ def r2_clip_scale_trunc_cast(ctx):
     """apply_simple_adc equals, as a polynomial identity, trunc((clip(signal, vmin, vmax) - vmin) * (2**bits - 1) / (vmax - vmin)), and the cast to the output type is the last operation."""
     f = ctx.func(f"{RE}.simple_adc:apply_simple_adc")
     sx = SymExec(ctx)
-    got = sx.function(f, {})
+    rets = [r for r in returns_of(f) if r.value is not None]
+    # the float codes leave through the saturating conversion (R5) or a plain astype: the formula is
+    # what is handed to it
+    inner = None
+    cast_ok = False
+    if len(rets) == 1:
+        rv = expand(f, rets[0].value, _seen=set(f.params))
+        if isinstance(rv, ast.Call) and call_name(rv).split(".")[-1] == "convert_to_unsigned":
+            inner = arg_or_kw(rv, 0, "codes")
+            cast_ok = dotted(arg_or_kw(rv, 2, "dtype")) == "dtype" and dotted(arg_or_kw(rv, 1, "bit_resolution")) == "bit_resolution"
+        elif isinstance(rv, ast.Call) and isinstance(rv.func, ast.Attribute) and rv.func.attr == "astype" and rv.args and dotted(rv.args[0]) == "dtype":
+            inner = rv.func.value
+            cast_ok = True
+    if inner is None:
+        got = sx.function(f, {})
+    else:
+        got = sx.expr(f, inner, {})
     if got is None:
         raise AnalysisError("apply_simple_adc outside the straight-line evaluator")
     wants = [sx.expr(f, ast.parse(src, mode="eval").body, {}) for src in FORMULAS]
     ok = any(got == w for w in wants)
-    rets = [r for r in returns_of(f) if r.value is not None]
     ctx.check(ok, f.qual + "#formula", "= trunc((clip(signal) - vmin) * (2**bits - 1) / (vmax - vmin))" if ok else f"evaluates to {got!r}: not clip -> offset -> scale by 2**bits - 1 -> truncate", where=f, node=rets[0] if rets else f.node, facts={"normal_form": repr(got)[:300]})
-    ok = len(rets) == 1 and isinstance(rets[0].value, ast.Call) and isinstance(rets[0].value.func, ast.Attribute) and rets[0].value.func.attr == "astype" and rets[0].value.args and dotted(rets[0].value.args[0]) == "dtype"
-    ctx.check(ok, f.qual + "#cast-last", "astype(dtype) is the outermost operation" if ok else "the cast to the output type is not the last operation", where=f, node=rets[0] if rets else f.node)
+    ok = cast_ok
+    ctx.check(ok, f.qual + "#cast-last", "the conversion to dtype (saturating, see R5) is the outermost operation" if ok else "the cast to the output type is not the last operation", where=f, node=rets[0] if rets else f.node)
     clips = [c for c in calls_in(f.node) if call_name(c) in ("np.clip", "numpy.clip")]
     ok = len(clips) == 1 and dotted(arg_or_kw(clips[0], 0, "a")) == "signal" and dotted(arg_or_kw(clips[0], 1, "a_min")) == "voltage_min" and dotted(arg_or_kw(clips[0], 2, "a_max")) == "voltage_max"
     ctx.check(ok, f.qual + "#clip", "clip(signal, voltage_min, voltage_max)" if ok else "the signal is not clipped to [voltage_min, voltage_max] before scaling", where=f, node=clips[0] if clips else f.node)
@@ -293,7 +308,7 @@ def r4_sar_siblings(ctx):
         ctx.check(ok, f.qual + "#weight", "weight of step i = 2**(adc_bits-(i+1))" if ok else f"weight of step i is {ft['weight']}", where=f, node=f.node)
         ok = ft["halvings"] == 1 and ft["halving_last"]
         ctx.check(ok, f.qual + "#halve", "reference halved once, at the end of each step" if ok else "reference is not halved exactly once at the end of each step", where=f, node=f.node)
-        ok = ft["cast"] is not None and ft["cast"].endswith(".astype(get_dtype(adc_bits))")
+        ok = ft["cast"] is not None and (ft["cast"].endswith(".astype(get_dtype(adc_bits))") or (ft["cast"].startswith("convert_to_unsigned(") and ft["cast"].endswith("bit_resolution=adc_bits, dtype=get_dtype(adc_bits))")))
         ctx.check(ok, f.qual + "#cast", "output cast to get_dtype(adc_bits)" if ok else f"output is {ft['cast']}", where=f, node=f.node)
         ms = ft["masks"]
         adds = [m for m in ms if m[1] == "Add"]
@@ -336,4 +351,45 @@ def r4_sar_siblings(ctx):
     ctx.check(ok, sn.qual + "#lengths", "strengths and noises must have one entry per bit" if ok else "length checks of strengths/noises changed", where=sn, node=sn.node)
 
 
-RULES = [r1_dtype_table, r2_clip_scale_trunc_cast, r3_type_wide_enough, r4_sar_siblings]
+def r5_saturating_conversion(ctx):
+    """Full scale 2**bits - 1 is not representable as a float above 53 bit, and resolutions up to 64 bit are allowed: every converter hands its float codes to pyxel.util.convert_to_unsigned with its own resolution, and that function maps every code >= 2.0**bits to the integer 2**bits - 1 AFTER the cast (mask computed on the float codes, masked positions cast from 0, then overwritten) - so a code can neither exceed full scale nor wrap around."""
+    users = {
+        f"{RE}.simple_adc:apply_simple_adc": "bit_resolution",
+        f"{RE}.sar_adc:apply_sar_adc": "adc_bits",
+        f"{RE}.sar_adc_with_noise:apply_sar_adc_with_noise": "adc_bits",
+    }
+    if not ctx.repo.has_func("pyxel.util.misc:convert_to_unsigned"):
+        for q in users:
+            f = ctx.func(q)
+            rets = [r for r in returns_of(f) if r.value is not None]
+            ctx.fail(q + "#saturating", "the float codes are converted without saturating at 2**bits - 1 (pyxel.util.convert_to_unsigned is gone): above 53 bit a saturated input becomes 2**bits (or wraps to 0 at 64 bit)", where=f, node=rets[0] if rets else f.node)
+        return
+    cu = ctx.func("pyxel.util.misc:convert_to_unsigned")
+    p_codes, p_bits, p_dt = cu.params[:3]
+    masks = [(st, val) for nm in {t.id for st_ in ast.walk(cu.node) if isinstance(st_, ast.Assign) for t in st_.targets if isinstance(t, ast.Name)} for st, val in local_defs(cu, nm) if val is not None and isinstance(val, ast.Compare) and len(val.ops) == 1 and isinstance(val.ops[0], ast.GtE) and norm(val.comparators[0]) in (f"2.0 ** {p_bits}", f"2 ** {p_bits}", f"float(2 ** {p_bits})")]
+    ok = len(masks) == 1 and p_codes in names_in(masks[0][1].left)
+    ctx.check(ok, cu.qual + "#mask", "overflow = codes >= 2.0**bits" if ok else "no mask of the codes that reach 2**bits", where=cu, node=masks[0][0] if masks else cu.node)
+    if not ok:
+        return
+    mname = masks[0][0].targets[0].id
+    rets = [r for r in returns_of(cu) if r.value is not None]
+    rname = dotted(rets[0].value) if len(rets) == 1 else None
+    rdefs = [val for st, val in local_defs(cu, rname or "") if val is not None]
+    ok = len(rdefs) == 1 and isinstance(rdefs[0], ast.Call) and isinstance(rdefs[0].func, ast.Attribute) and rdefs[0].func.attr == "astype" and dotted(arg_or_kw(rdefs[0], 0, "dtype")) == p_dt
+    if ok:
+        src = rdefs[0].func.value
+        ok = isinstance(src, ast.Call) and call_name(src) in ("np.where", "numpy.where") and len(src.args) == 3 and dotted(src.args[0]) == mname and norm(src.args[1]) in ("0.0", "0") and p_codes in names_in(src.args[2])
+    ctx.check(ok, cu.qual + "#cast", "cast = where(overflow, 0, codes).astype(dtype): no out-of-range value is ever cast" if ok else "the codes are cast without masking the out-of-range ones first (undefined / wrapping conversion)", where=cu, node=rdefs[0] if rdefs else cu.node)
+    fills = [st for st, t in stores(cu.node, lambda t: isinstance(t, ast.Subscript) and dotted(t.value) == rname and dotted(t.slice) == mname)]
+    ok = len(fills) == 1 and isinstance(fills[0], ast.Assign) and norm(fills[0].value) in (f"2 ** {p_bits} - 1", f"(1 << {p_bits}) - 1") and not enclosing_tests(fills[0])
+    ctx.check(ok, cu.qual + "#saturate", "result[overflow] = 2**bits - 1 (exact integer), unconditionally" if ok else "overflowing codes are not replaced by the exact integer full scale", where=cu, node=fills[0] if fills else cu.node)
+    for q, bits in users.items():
+        f = ctx.func(q)
+        rets = [r for r in returns_of(f) if r.value is not None]
+        calls = [c for r in rets for c in ast.walk(r.value) if isinstance(c, ast.Call) and call_name(c).split(".")[-1] == "convert_to_unsigned"]
+        ok = len(rets) == 1 and len(calls) == 1 and calls[0] is rets[0].value and dotted(arg_or_kw(calls[0], 1, "bit_resolution")) == bits
+        plain = [c for c in calls_in(f.node) if isinstance(c.func, ast.Attribute) and c.func.attr == "astype" and any(isinstance(r.value, ast.AST) and contains(r.value, c) for r in rets)]
+        ctx.check(ok and not plain, q + "#saturating", f"result = convert_to_unsigned(codes, bit_resolution={bits}, ...)" if ok and not plain else "the float codes are converted without saturating at 2**bits - 1: above 53 bit a saturated input becomes 2**bits (or wraps to 0 at 64 bit)", where=f, node=rets[0] if rets else f.node)
+
+
+RULES = [r5_saturating_conversion, r1_dtype_table, r2_clip_scale_trunc_cast, r3_type_wide_enough, r4_sar_siblings]
